@@ -1,14 +1,570 @@
-//! (under construction)
+//! C14 — integer and packed-byte sample delivery are equivalent.
+//!
+//! The sample source / the caller of the `Fill` operations is the simulated
+//! peer: it delivers the SAME audio under different scripts (per read: as
+//! `i32`s or as packed little-endian bytes; full blocks, shorter blocks, a full
+//! block followed by a shorter one into the same buffer) and the observable
+//! results must not depend on the script:
+//!
+//! * `stream`  — `encode_with_fixed_block_size` (single-thread here; the
+//!   multi-thread slice runs in parsim as C14P) gives identical bytes for
+//!   all-ints, all-bytes and several mixed scripts with the same read lengths;
+//! * `framebuf` — a `FrameBuf` driven through a sequence of fills (ints or
+//!   bytes, 1..4 bytes per sample) is encoded after every fill with
+//!   `encode_fixed_size_frame`; the frame bytes must equal those of a fresh
+//!   buffer filled once with that block as integers (stale samples of a longer
+//!   earlier block must not leak, whichever path wrote them);
+//! * `context` — `Context` (MD5 / sample count / frame counter) and the tuple
+//!   `(FrameBuf, Context)` agree after every step between an all-ints replica,
+//!   an all-bytes replica and the scripted mix.
+
+use crate::pan;
+use crate::rng::{fnv, mix, Rng};
+use crate::simsource::{to_le_bytes, SimSource};
+use crate::workload::{fresh_small, CfgSpec, ReadPlan, Workload, BITS};
 use crate::{Summary, Violation};
+use flacenc::bitsink::ByteSink;
+use flacenc::component::{BitRepr, StreamInfo};
+use flacenc::source::{Context, Fill, FrameBuf};
+use serde::{Deserialize, Serialize};
+use serde_json::json;
+use std::collections::BTreeSet;
 
-pub fn run(_ctx: &crate::RunCtx) -> (Summary, Vec<Violation>) {
-    (Summary::new("under construction"), vec![])
+#[derive(Serialize, Deserialize, Clone, Debug, PartialEq)]
+pub struct FillStep {
+    /// inter-channel samples in this fill (0..=capacity)
+    pub len: usize,
+    /// 0 = `fill_interleaved`, n = `fill_le_bytes(.., n)`
+    pub bps: usize,
 }
 
-pub fn exec(_case: &serde_json::Value) -> Result<Option<Violation>, String> {
-    Err("not implemented".into())
+#[derive(Serialize, Deserialize, Clone, Debug, PartialEq)]
+#[serde(tag = "kind")]
+pub enum Case {
+    Stream {
+        w: Workload,
+        /// read seeds of the mixed scripts compared with the all-ints script
+        mixed_seeds: Vec<u64>,
+    },
+    FrameBuf {
+        channels: usize,
+        bits: usize,
+        capacity: usize,
+        cfg: CfgSpec,
+        data_seed: u64,
+        steps: Vec<FillStep>,
+        /// go through `&mut FrameBuf` / the `(FrameBuf, Context)` tuple instead of the buffer itself
+        via_tuple: bool,
+    },
+    Context {
+        channels: usize,
+        bits: usize,
+        data_seed: u64,
+        steps: Vec<FillStep>,
+    },
 }
 
-pub fn minimise(case: &serde_json::Value, _class: &str, _site: &str) -> serde_json::Value {
-    case.clone()
+fn viol(class: &str, site: &str, detail: String, case: &Case) -> Violation {
+    Violation {
+        class: class.into(),
+        site: site.into(),
+        message: String::new(),
+        detail,
+        case: serde_json::to_value(case).unwrap(),
+    }
+}
+
+fn panic_viol(c: &pan::Caught, what: &str, case: &Case) -> Violation {
+    Violation {
+        class: "panic".into(),
+        site: c.site.clone(),
+        message: c.message.clone(),
+        detail: format!("{what} panicked"),
+        case: serde_json::to_value(case).unwrap(),
+    }
+}
+
+/// Samples inside the declared width, biased towards the extremes.
+fn gen_block(r: &mut Rng, bits: usize, n: usize) -> Vec<i32> {
+    let hi: i64 = (1i64 << (bits - 1)) - 1;
+    let lo: i64 = -(1i64 << (bits - 1));
+    let style = r.below(4);
+    (0..n)
+        .map(|_| {
+            let v = match (style, r.below(10)) {
+                (0, _) => r.range(lo, hi),
+                (_, 0) => lo,
+                (_, 1) => hi,
+                (_, 2) => -1,
+                (_, 3) => 0,
+                (1, _) => r.range(-200, 200).clamp(lo, hi),
+                (2, _) => *r.pick(&[lo, hi, lo + 1, hi - 1, -1, 0, 1]),
+                _ => r.range(lo, hi),
+            };
+            v.clamp(lo, hi) as i32
+        })
+        .collect()
+}
+
+fn first_diff(a: &[u8], b: &[u8]) -> String {
+    let n = a.len().min(b.len());
+    let at = (0..n).find(|i| a[*i] != b[*i]).or(if a.len() == b.len() { None } else { Some(n) });
+    format!("len {} vs {}, first differing byte {:?}", a.len(), b.len(), at)
+}
+
+fn encode_stream(w: &Workload) -> Result<Vec<u8>, String> {
+    encode_stream_with(w, None)
+}
+
+fn encode_stream_with(w: &Workload, plan: Option<Vec<ReadPlan>>) -> Result<Vec<u8>, String> {
+    let mut src = SimSource::new(w);
+    if let Some(p) = plan {
+        src.set_plan(p);
+    }
+    let cfg = w.cfg.build(false, None, w.block);
+    let st = flacenc::encode_with_fixed_block_size(&cfg, &mut src, w.block).map_err(|e| format!("{e}"))?;
+    let mut sink = ByteSink::new();
+    st.write(&mut sink).map_err(|e| format!("write: {e}"))?;
+    Ok(sink.into_inner())
+}
+
+fn frame_bytes(cfg: &CfgSpec, fb: &FrameBuf, si: &StreamInfo, cap: usize) -> Result<Vec<u8>, String> {
+    let cfg = cfg.build(false, None, cap);
+    let f = flacenc::encode_fixed_size_frame(&cfg, fb, 0, si).map_err(|e| format!("{e}"))?;
+    let mut sink = ByteSink::new();
+    f.write(&mut sink).map_err(|e| format!("write: {e}"))?;
+    Ok(sink.into_inner())
+}
+
+fn do_fill<F: Fill>(dest: &mut F, block: &[i32], bps: usize) -> Result<(), String> {
+    if bps == 0 {
+        dest.fill_interleaved(block).map_err(|e| format!("{e}"))
+    } else {
+        let mut bb = vec![];
+        to_le_bytes(block, bps, &mut bb);
+        dest.fill_le_bytes(&bb, bps).map_err(|e| format!("{e}"))
+    }
+}
+
+pub struct Stats {
+    pub ops: u64,
+}
+
+fn exec_stream(case: &Case, w: &Workload, mixed_seeds: &[u64], stats: &mut Stats) -> Option<Violation> {
+    let mut base = w.clone();
+    base.delivery = 0;
+    base.faults.clear();
+    let reference = match pan::catch(|| encode_stream(&base)) {
+        Err(c) => return Some(panic_viol(&c, "all-integer delivery", case)),
+        Ok(r) => r,
+    };
+    stats.ops += base.plan_reads().len() as u64 + 1;
+    // every script keeps the read LENGTHS of the reference; only the representation per read varies
+    let lens: Vec<usize> = base.plan_reads().iter().map(|p| p.len).collect();
+    let mut scripts: Vec<(String, Vec<ReadPlan>)> = vec![];
+    scripts.push(("all-bytes".into(), lens.iter().map(|l| ReadPlan { len: *l, bytes: true }).collect()));
+    for s in mixed_seeds {
+        let mut rr = Rng::new(*s);
+        scripts.push((
+            format!("mixed({s})"),
+            lens.iter()
+                .map(|l| ReadPlan {
+                    len: *l,
+                    bytes: rr.chance(0.5),
+                })
+                .collect(),
+        ));
+    }
+    for (name, plan) in &scripts {
+        let got = match pan::catch(|| encode_stream_with(&base, Some(plan.clone()))) {
+            Err(c) => return Some(panic_viol(&c, &format!("{name} delivery"), case)),
+            Ok(r) => r,
+        };
+        stats.ops += plan.len() as u64 + 1;
+        if got != reference {
+            let d = match (&got, &reference) {
+                (Ok(a), Ok(b)) => first_diff(a, b),
+                (a, b) => format!("{:?} vs {:?}", a.as_ref().map(Vec::len), b.as_ref().map(Vec::len)),
+            };
+            return Some(viol(
+                "delivery_mode_mismatch",
+                "stream",
+                format!("{name} delivery of the same audio gave a different stream than all-integer delivery: {d}"),
+                case,
+            ));
+        }
+    }
+    None
+}
+
+#[allow(clippy::too_many_arguments)]
+fn exec_framebuf(
+    case: &Case,
+    channels: usize,
+    bits: usize,
+    capacity: usize,
+    cfg: &CfgSpec,
+    data_seed: u64,
+    steps: &[FillStep],
+    via_tuple: bool,
+    stats: &mut Stats,
+) -> Result<Option<Violation>, String> {
+    let si = StreamInfo::new(44100, channels, bits).map_err(|e| format!("HARNESS: stream info: {e}"))?;
+    let mut r = Rng::new(data_seed);
+    let mut fb = FrameBuf::with_size(channels, capacity).map_err(|e| format!("HARNESS: framebuf: {e}"))?;
+    let mut ctx = Context::new(bits, channels);
+    for (i, st) in steps.iter().enumerate() {
+        let block = gen_block(&mut r, bits, st.len * channels);
+        let res = pan::catch(|| {
+            if via_tuple && (st.bps == 0 || st.bps == ctx.bytes_per_sample()) {
+                let mut t = (&mut fb, &mut ctx);
+                do_fill(&mut t, &block, st.bps)
+            } else {
+                do_fill(&mut &mut fb, &block, st.bps)
+            }
+        });
+        stats.ops += 1;
+        match res {
+            Err(c) => return Ok(Some(panic_viol(&c, &format!("fill #{i} ({} samples, bps {})", st.len, st.bps), case))),
+            Ok(Err(e)) => {
+                return Ok(Some(viol(
+                    "valid_fill_rejected",
+                    "framebuf",
+                    format!("fill #{i} of {} samples (<= capacity {capacity}) with bps {} was rejected: {e}", st.len, st.bps),
+                    case,
+                )))
+            }
+            Ok(Ok(())) => {}
+        }
+        if fb.filled_size() != st.len {
+            return Ok(Some(viol(
+                "delivery_mode_mismatch",
+                "framebuf",
+                format!("after fill #{i} (bps {}) filled_size() = {} but {} samples were delivered", st.bps, fb.filled_size(), st.len),
+                case,
+            )));
+        }
+        if st.len == 0 {
+            continue;
+        }
+        // reference: a fresh buffer filled once, as integers
+        let mut fresh = FrameBuf::with_size(channels, capacity).map_err(|e| format!("HARNESS: framebuf: {e}"))?;
+        fresh.fill_interleaved(&block).map_err(|e| format!("HARNESS: reference fill rejected: {e}"))?;
+        let want = pan::catch(|| frame_bytes(cfg, &fresh, &si, capacity));
+        let got = pan::catch(|| frame_bytes(cfg, &fb, &si, capacity));
+        stats.ops += 2;
+        match (got, want) {
+            (Err(c), _) => return Ok(Some(panic_viol(&c, &format!("encoding the buffer after fill #{i}"), case))),
+            (_, Err(c)) => return Ok(Some(panic_viol(&c, "encoding the reference buffer", case))),
+            (Ok(g), Ok(w)) => {
+                if g != w {
+                    let d = match (&g, &w) {
+                        (Ok(a), Ok(b)) => first_diff(a, b),
+                        (a, b) => format!("{a:?} vs {b:?}"),
+                    };
+                    let hist: Vec<String> = steps[..=i].iter().map(|s| format!("{}@{}", s.len, if s.bps == 0 { "ints".into() } else { format!("{}B", s.bps) })).collect();
+                    return Ok(Some(viol(
+                        "delivery_mode_mismatch",
+                        "framebuf",
+                        format!("frame encoded from the buffer after fills [{}] differs from a fresh buffer filled once with the last block as integers: {d}", hist.join(", ")),
+                        case,
+                    )));
+                }
+            }
+        }
+    }
+    Ok(None)
+}
+
+fn ctx_obs(c: &Context) -> ([u8; 16], usize, Option<usize>) {
+    (c.md5_digest(), c.total_samples(), c.current_frame_number())
+}
+
+fn exec_context(case: &Case, channels: usize, bits: usize, data_seed: u64, steps: &[FillStep], stats: &mut Stats) -> Option<Violation> {
+    let mut r = Rng::new(data_seed);
+    let mut scripted = Context::new(bits, channels);
+    let mut ints = Context::new(bits, channels);
+    let mut bytes = Context::new(bits, channels);
+    let bps = scripted.bytes_per_sample();
+    for (i, st) in steps.iter().enumerate() {
+        let block = gen_block(&mut r, bits, st.len * channels);
+        let res = pan::catch(|| {
+            let a = do_fill(&mut scripted, &block, st.bps);
+            let b = do_fill(&mut ints, &block, 0);
+            let c = do_fill(&mut bytes, &block, bps);
+            (a, b, c)
+        });
+        stats.ops += 3;
+        let (a, b, c) = match res {
+            Err(c) => return Some(panic_viol(&c, &format!("context fill #{i} ({} samples, bps {})", st.len, st.bps), case)),
+            Ok(x) => x,
+        };
+        for (name, x) in [("scripted", &a), ("all-ints", &b), ("all-bytes", &c)] {
+            if let Err(e) = x {
+                return Some(viol("valid_fill_rejected", "context", format!("{name} context rejected fill #{i} ({} samples): {e}", st.len), case));
+            }
+        }
+        let (os, oi, ob) = (ctx_obs(&scripted), ctx_obs(&ints), ctx_obs(&bytes));
+        if os != oi || oi != ob {
+            return Some(viol(
+                "delivery_mode_mismatch",
+                "context",
+                format!(
+                    "after fill #{i} ({} samples, scripted bps {}): (md5, total, frame) scripted {:02x?}/{}/{:?}, all-ints {:02x?}/{}/{:?}, all-bytes {:02x?}/{}/{:?}",
+                    st.len, st.bps, &os.0[..4], os.1, os.2, &oi.0[..4], oi.1, oi.2, &ob.0[..4], ob.1, ob.2
+                ),
+                case,
+            ));
+        }
+    }
+    None
+}
+
+pub fn exec_case(case: &Case, stats: &mut Stats) -> Result<Option<Violation>, String> {
+    match case {
+        Case::Stream { w, mixed_seeds } => Ok(exec_stream(case, w, mixed_seeds, stats)),
+        Case::FrameBuf {
+            channels,
+            bits,
+            capacity,
+            cfg,
+            data_seed,
+            steps,
+            via_tuple,
+        } => exec_framebuf(case, *channels, *bits, *capacity, cfg, *data_seed, steps, *via_tuple, stats),
+        Case::Context {
+            channels,
+            bits,
+            data_seed,
+            steps,
+        } => Ok(exec_context(case, *channels, *bits, *data_seed, steps, stats)),
+    }
+}
+
+const CAPS: &[usize] = &[32, 33, 48, 63, 64, 65, 100, 128, 255, 256, 257, 576];
+
+fn gen_steps(r: &mut Rng, cap: usize, bps_choices: &[usize]) -> Vec<FillStep> {
+    let n = 2 + r.below(5);
+    let mut steps = vec![];
+    for i in 0..n {
+        let len = match (i, r.below(8)) {
+            (0, 0..=5) => cap, // usually: a full block first
+            (_, 0) => 0,
+            (_, 1) => 1,
+            (_, 2) => cap - 1,
+            (_, 3) => cap,
+            (_, 4) => cap / 2,
+            (_, 5) => 31.min(cap),
+            _ => r.below(cap + 1),
+        };
+        steps.push(FillStep {
+            len,
+            bps: *r.pick(bps_choices),
+        });
+    }
+    steps
+}
+
+pub fn gen_case(seed: u64, index: u64) -> Case {
+    let mut r = Rng::new(mix(seed, 0xC14_0000 + index));
+    match r.below(10) {
+        0..=2 => {
+            let mut w = fresh_small(&mut r);
+            w.faults.clear();
+            w.delivery = 0;
+            w.short_reads = r.chance(0.3);
+            Case::Stream {
+                w,
+                mixed_seeds: vec![r.next_u64(), r.next_u64(), r.next_u64()],
+            }
+        }
+        3..=6 => {
+            let channels = if r.chance(0.3) { 2 } else { 1 + r.below(8) };
+            let bits = *r.pick(BITS);
+            let capacity = *r.pick(CAPS);
+            let good = (bits + 7) / 8;
+            // at the buffer level any bytes-per-sample that can hold the values is a valid delivery
+            let mut choices = vec![0usize, 0, good, good];
+            for b in good + 1..=4 {
+                choices.push(b);
+            }
+            let mut cfg = CfgSpec::random(&mut r);
+            if cfg.rice_max + 8 < bits {
+                cfg.rice_max = 14;
+            }
+            // The values are loud (extremes of the width). Predictive coding of wide loud noise makes the
+            // library build frames of many megabytes before it falls back (C09's business) - verbatim /
+            // constant subframes expose the buffer contents directly and are what this check needs.
+            if bits >= 20 || r.chance(0.5) {
+                cfg.use_lpc = false;
+                cfg.use_fixed = false;
+            }
+            Case::FrameBuf {
+                channels,
+                bits,
+                capacity,
+                cfg,
+                data_seed: r.next_u64(),
+                steps: gen_steps(&mut r, capacity, &choices),
+                via_tuple: r.chance(0.4),
+            }
+        }
+        _ => {
+            let channels = 1 + r.below(8);
+            let bits = match r.below(4) {
+                0 => 1 + r.below(32),
+                1 => *r.pick(&[25usize, 28, 32]),
+                _ => *r.pick(BITS),
+            };
+            let good = (bits + 7) / 8;
+            let cap = *r.pick(CAPS);
+            Case::Context {
+                channels,
+                bits,
+                data_seed: r.next_u64(),
+                steps: gen_steps(&mut r, cap, &[0, good]),
+            }
+        }
+    }
+}
+
+fn case_kind(c: &Case) -> &'static str {
+    match c {
+        Case::Stream { .. } => "stream",
+        Case::FrameBuf { .. } => "framebuf",
+        Case::Context { .. } => "context",
+    }
+}
+
+/// Non-trivial: the script actually mixes representations, or refills a buffer with a shorter block.
+fn nontrivial(c: &Case) -> bool {
+    match c {
+        Case::Stream { w, .. } => w.total_samples() > 0,
+        Case::FrameBuf { steps, .. } | Case::Context { steps, .. } => {
+            let mixes = steps.iter().any(|s| s.bps == 0) && steps.iter().any(|s| s.bps != 0);
+            let shrinks = steps.windows(2).any(|p| p[1].len < p[0].len && p[1].len > 0);
+            mixes || shrinks
+        }
+    }
+}
+
+pub fn run(ctx: &crate::RunCtx) -> (Summary, Vec<Violation>) {
+    let mut sum = Summary::new(
+        "a case = one delivery script for the same audio: (stream) single-thread encode with all-ints vs all-bytes vs per-read mixed delivery, \
+         optionally with short non-final reads; (framebuf) 2..6 fills of one FrameBuf (full block first, then shorter / empty / full ones) as ints or \
+         as 1..4-byte LE samples, directly, through &mut, or through the (FrameBuf, Context) tuple, each followed by encode_fixed_size_frame and \
+         compared with a fresh buffer filled once as ints; (context) the same fill scripts on Context for widths 1..32 bits, compared after every \
+         step with an all-ints and an all-bytes replica (MD5, sample count, frame counter). Values are biased to the extremes of the width. \
+         distinct = distinct case hashes; non-trivial = the script mixes representations or refills with a shorter block (stream: non-empty input).",
+    );
+    let mut viols = vec![];
+    let mut distinct = BTreeSet::new();
+    let mut stats = Stats { ops: 0 };
+    for i in 0..ctx.count {
+        if i % ctx.nchild != ctx.child {
+            continue;
+        }
+        let case = gen_case(ctx.seed, i);
+        sum.cases += 1;
+        *sum.ops_hist.entry(case_kind(&case).into()).or_default() += 1;
+        if let Case::FrameBuf { steps, .. } | Case::Context { steps, .. } = &case {
+            for s in steps {
+                *sum.probes.entry(format!("fill_bps_{}", s.bps)).or_default() += 1;
+            }
+            if steps.windows(2).any(|p| p[1].len < p[0].len && p[1].len > 0) {
+                *sum.probes.entry("refill_with_shorter_block".into()).or_default() += 1;
+            }
+        }
+        if nontrivial(&case) && distinct.insert(fnv(&serde_json::to_string(&case).unwrap())) {
+            sum.distinct_nontrivial += 1;
+        }
+        let t0 = std::time::Instant::now();
+        match exec_case(&case, &mut stats) {
+            Ok(Some(v)) => {
+                *sum.classes.entry(v.class.clone()).or_default() += 1;
+                viols.push(v);
+            }
+            Ok(None) => {}
+            Err(e) => crate::harness_error(&e),
+        }
+        if std::env::var_os("VERIF_TRACE_SLOW").is_some() && t0.elapsed().as_millis() > 100 {
+            eprintln!("SLOW {} ms: case {i}: {}", t0.elapsed().as_millis(), serde_json::to_string(&case).unwrap());
+        }
+        if sum.samples.len() < 3 && i >= 3 * ctx.nchild && case_kind(&case) != sum.samples.last().and_then(|s: &serde_json::Value| s.get("kind")).and_then(|k| k.as_str()).unwrap_or("") {
+            let mut v = serde_json::to_value(&case).unwrap();
+            v.as_object_mut().unwrap().insert("index".into(), json!(i));
+            sum.samples.push(v);
+        }
+    }
+    sum.seam_ops = stats.ops;
+    (sum, viols)
+}
+
+pub fn exec(case: &serde_json::Value) -> Result<Option<Violation>, String> {
+    let case: Case = serde_json::from_value(case.clone()).map_err(|e| format!("bad C14 case: {e}"))?;
+    let mut stats = Stats { ops: 0 };
+    exec_case(&case, &mut stats)
+}
+
+/// Shrinks fill scripts by dropping steps, stream cases by cheaper shapes, while class and site persist.
+pub fn minimise(case: &serde_json::Value, class: &str, site: &str) -> serde_json::Value {
+    let Ok(mut c) = serde_json::from_value::<Case>(case.clone()) else {
+        return case.clone();
+    };
+    let mut stats = Stats { ops: 0 };
+    let mut same = |c: &Case| matches!(exec_case(c, &mut stats), Ok(Some(v)) if v.class == class && v.site == site);
+    let mut progress = true;
+    while progress {
+        progress = false;
+        let cands: Vec<Case> = match &c {
+            Case::FrameBuf { steps, .. } | Case::Context { steps, .. } => (0..steps.len())
+                .filter(|_| steps.len() > 1)
+                .map(|i| {
+                    let mut n = c.clone();
+                    if let Case::FrameBuf { steps, .. } | Case::Context { steps, .. } = &mut n {
+                        steps.remove(i);
+                    }
+                    n
+                })
+                .collect(),
+            Case::Stream { w, mixed_seeds } => {
+                let mut v = vec![];
+                let mut push = |f: &dyn Fn(&mut Workload)| {
+                    let mut n = w.clone();
+                    f(&mut n);
+                    if n != *w {
+                        v.push(Case::Stream {
+                            w: n,
+                            mixed_seeds: mixed_seeds.clone(),
+                        });
+                    }
+                };
+                push(&|n| n.nfull /= 2);
+                push(&|n| n.residue = 0);
+                push(&|n| {
+                    n.channels = 1;
+                    n.sig_kinds.truncate(1);
+                });
+                push(&|n| n.cfg = CfgSpec { use_lpc: false, ..CfgSpec::default_spec() });
+                push(&|n| n.short_reads = false);
+                push(&|n| n.block = 32.min(n.block));
+                v.into_iter()
+                    .map(|mut c| {
+                        if let Case::Stream { w, .. } = &mut c {
+                            w.residue = w.residue.min(w.block - 1);
+                        }
+                        c
+                    })
+                    .collect()
+            }
+        };
+        for n in cands {
+            if same(&n) {
+                c = n;
+                progress = true;
+                break;
+            }
+        }
+    }
+    serde_json::to_value(c).unwrap()
 }
